@@ -48,6 +48,14 @@ pub struct Cfg {
     /// (Desync::drop then takes its non-panicking path)
     #[serde(default)]
     pub unwinding_drops: bool,
+    /// pipe consumers poll the output stream once with a throw-away waker before they wait for it with their own
+    /// (now_or_never() followed by an await): the stream must wake the waker of the latest poll
+    #[serde(default)]
+    pub consumer_probe_polls: bool,
+    /// the input stream of pipe s owns the only sender of stream s+1: when the library drops stream s, stream s+1 ends
+    /// (its pipe is woken from inside whatever context performs the drop)
+    #[serde(default)]
+    pub chained_streams: bool,
 }
 
 #[derive(Clone, Copy, Debug, PartialEq, Eq, Serialize, Deserialize)]
@@ -153,7 +161,13 @@ pub enum RootAct {
     /// verif_set_max_threads
     SetPool { n: u8 },
     /// public set_max_threads (spawns eagerly)
-    SetPoolPublic { n: u8 },
+    /// `atomic`: the call runs without pre-emption. set_max_threads() loops while an idle thread answers, so a schedule that
+    /// always lets the idle thread answer first never lets it return (cut by the step bound as inconclusive otherwise)
+    SetPoolPublic {
+        n: u8,
+        #[serde(default)]
+        atomic: bool,
+    },
     SpawnThread,
     Despawn,
     OpenGate { g: u8 },
